@@ -80,7 +80,14 @@ Configs ==
 Analytic(c) == c.topo = "TRL" /\ c.me = 0
 
 (* The data are exact and every guess lies within 0.2 of the truth (the    *)
-(* stated radius of the basin): with the default limit (30) or more the    *)
-(* solve must succeed; under smaller limits it may fail to converge.       *)
-MustSucceed(c) == Analytic(c) \/ c.lim >= 30
+(* stated radius of the basin): with the default limit (30) or more and    *)
+(* tolerances no tighter than the default (1e-6) the solve must succeed.   *)
+(* Under smaller limits it may fail to converge; under tighter tolerances  *)
+(* the iteration may stall at the rounding floor of noise-free data (no    *)
+(* strictly better point exists any more) and end with a convergence       *)
+(* error, which the property allows ("failing with a convergence error     *)
+(* rather than hanging").  pt, et: the tolerances of the solve in question *)
+(* (the tolerance ladder re-solves the same data under other tolerances).  *)
+MustSucceedAt(c, pt, et) ==
+    Analytic(c) \/ (c.lim >= 30 /\ pt <= 6 /\ et <= 6)
 =============================================================================
